@@ -77,6 +77,10 @@ def build(cdir, flavor="release"):
     for n in names:      # a stale binary from an earlier tree must not be mistaken for a fresh one
         p = os.path.join(bdir, n)
         if os.path.exists(p):
+            # (rename() is a no-op when both names are hard links to one file - which is what cargo's
+            # uplifting produces after a fresh relink - so the old name must really go away first)
+            if os.path.exists(p + ".prev"):
+                os.remove(p + ".prev")
             os.rename(p, p + ".prev")
     r = common.run(cmd, cwd=cdir, env=common.env_with(env), timeout=3600)
     if r["timed_out"]:
